@@ -260,6 +260,12 @@ def updMetric (st : St) (mid : Nat) (f : ScopeS → Metric → Metric × List Ev
   | some (i, s', evs) => (setScope st i s', .events evs)
   | none => (st, .events [])   -- metric of a cleared scope: recording on an old handle is harmless
 
+/-- `registry.purge`: scopes whose id is registered are closed and cleared (ids counted from `i`) -/
+def purgeFrom (regd : List Nat) : Nat → List ScopeS → List ScopeS
+  | _, [] => []
+  | i, x :: xs =>
+    (if regd.contains i then { x with closed := true, metrics := [] } else x) :: purgeFrom regd (i + 1) xs
+
 def bump (l : List Int) (i : Nat) : List Int := l.set i (l.getD i 0 + 1)
 
 def step (st : St) : Op → St × Out
@@ -323,7 +329,9 @@ def step (st : St) : Op → St × Out
       let st2 := { st1 with rootClosed := true }
       if st.cfg.kind == .none then (st2, .events []) else   -- no reporter: no final pass, no purge
       let (st3, evs) := reportPass st2
-      let st4 := { st3 with reg := [], scopes := st3.scopes.map fun (x : ScopeS) => { x with closed := true, metrics := [] } }
+      -- purge: every scope that is still REGISTERED is closed, cleared and unregistered; a scope that an earlier
+      -- pass already collected is not reachable from the registry and keeps whatever was created on it since
+      let st4 := { st3 with reg := [], scopes := purgeFrom (st3.reg.map fun (e : (Nat × Bytes) × Nat) => e.2) 0 st3.scopes }
       let closeEv := if st.cfg.closable && st.cfg.kind != .none then [Event.close] else []
       ({ st4 with reporterClosed := st.cfg.closable }, .events (evs ++ closeEv))
 
